@@ -83,7 +83,10 @@ func (c *OCSPRevocationChecker) IsRevoked(clientCertificate *x509.Certificate, v
 			}
 			evictionTime := c.calculateEvictionTime(ocspResponse)
 			if evictionTime > 0 {
-				c.cache.Add(cacheKey, evictionTime, cachedRevocationStatus{revocationStatus, time.Now().Add(evictionTime)})
+				c.removeExpiredResponsesFromCache()
+				//the lifespan of the cache item is 0 (never expired by the cache): the expiry timer of cache2go can
+				//deadlock with concurrent lookups and deletes of an item. Expiry is enforced with cachedRevocationStatus.expires
+				c.cache.Add(cacheKey, 0, cachedRevocationStatus{revocationStatus, time.Now().Add(evictionTime)})
 			}
 			return &revocationStatus, nil
 		}
@@ -214,13 +217,27 @@ func (c *OCSPRevocationChecker) filterHTTPOCSPServers(ocspServerList []string) [
 	return httpOcspUrls
 }
 
+// removeExpiredResponsesFromCache removes all responses which are no longer valid from the cache
+func (c *OCSPRevocationChecker) removeExpiredResponsesFromCache() {
+	now := time.Now()
+	expiredKeys := make([]interface{}, 0)
+	c.cache.Foreach(func(key interface{}, item *cache2go.CacheItem) {
+		if cached, ok := item.Data().(cachedRevocationStatus); ok && now.After(cached.expires) {
+			expiredKeys = append(expiredKeys, key)
+		}
+	})
+	for _, key := range expiredKeys {
+		_, _ = c.cache.Delete(key)
+	}
+}
+
 func (c *OCSPRevocationChecker) tryGetResponseFromCache(cacheKey string) (*core.RevocationStatus, error) {
 
 	// Let's retrieve the item from the cache.
 	res, err := c.cache.Value(cacheKey)
 	if err == nil {
 		cached := res.Data().(cachedRevocationStatus)
-		//the cache renews the lifetime of an item on every access, the response itself is only valid for a fixed time
+		//the response is only valid for a fixed time
 		if time.Now().After(cached.expires) {
 			_, _ = c.cache.Delete(cacheKey)
 			return nil, errors.New("cached ocsp response is expired")
